@@ -42,6 +42,14 @@ def lineage_steps(lin):
         # exact-equality probe: reopen with the max size set to exactly (or one byte around) the size of one of the tables
         i, delta = lin["exact"]
         steps += [{"op": "close"}, dict(dbgen.open_step(cfg["thr"], ms, cfg["ratio"]), exactof=i, delta=delta)]
+    if lin.get("restart_first"):
+        # the restart comes directly after the compaction (nothing is flushed in between): the next table's generation number is derived from what the
+        # compaction left on disk; that table must survive the restart after it
+        steps += [obs, {"op": "compact"}, obs, {"op": "close"}, dbgen.open_step(cfg["thr"], ms, cfg["ratio"]), obs,
+                  {"op": "put", "k": 2, "v": u.next("late"), "pad": 0}, {"op": "put", "k": 0, "v": u.next("late"), "pad": 0}, {"op": "rotate"}, {"op": "barrier"}, obs,
+                  {"op": "close"}, dbgen.open_step(cfg["thr"], ms, cfg["ratio"]), obs, {"op": "del", "k": 1}, {"op": "rotate"}, {"op": "barrier"}, obs, {"op": "close"},
+                  dbgen.open_step(cfg["thr"], ms, cfg["ratio"]), obs, {"op": "compact"}, obs, {"op": "close"}]
+        return steps
     steps += [obs, {"op": "compact"}, obs, {"op": "compact"}, obs,
               {"op": "put", "k": 2, "v": u.next("late"), "pad": 0}, {"op": "rotate"}, {"op": "barrier"}, {"op": "compact"}, obs, {"op": "close"},
               dbgen.open_step(cfg["thr"], ms, cfg["ratio"]), obs, {"op": "compact"}, obs, {"op": "close"}]
@@ -75,6 +83,8 @@ def run(tier):
     for n, l in enumerate(chosen):
         if n % 5 == 0:
             l["exact"] = [rng.randrange(1, len(l["tabs"]) + 1), rng.choice([-1, 0, 0, 1])]
+        if n % 3 == 1:
+            l["restart_first"] = True
     cases = [lineage_steps(l) for l in chosen]
     nb = 16
     batches = [("lin-%d" % i, cases[i::nb], False) for i in range(nb) if cases[i::nb]]
